@@ -17,7 +17,8 @@ Local Open Scope Z_scope.
 Inductive jval :=
 | JNull
 | JBool (b : bool)
-| JNum (int64 : option Z) (floor : Z)   (* json.Number: its Int64() result if it has one; floor of its value *)
+| JNum (int64 : option Z) (floor : Z)   (* json.Number: its Int64() result if it has one; floor of its value
+                                          (of an integer literal: the integer itself, of any size) *)
 | JStr (s : bytes)
 | JArr
 | JObj.
@@ -241,6 +242,30 @@ Definition issue_claims (aud app : bytes) (d t0 : Z) (iat_text : bytes) (payload
     (jwt_k_app_issue, JStr app);
     (jwt_k_issuedat_issue, JStr iat_text) ] ++ payload.
 
+(* IssueToken marshals the payload and decodes it into the claims map.  Without json.Number every
+   number passes through a float64: an integer is rounded to 53 significant bits (nearest, ties to
+   even).  What is then written is the shortest decimal of that float - the same integer as long as
+   it is at most 2^53 in magnitude; beyond that the model stops at the float value. *)
+Definition two53 : Z := 9007199254740992.
+Definition f64_int (z : Z) : Z :=
+  let a := Z.abs z in
+  if a <=? two53 then z
+  else
+    let e := Z.log2 a - 52 in
+    let q := a / 2 ^ e in
+    let r := a mod 2 ^ e in
+    let h := 2 ^ (e - 1) in
+    let q' := if r <? h then q else if h <? r then q + 1 else if Z.even q then q else q + 1 in
+    Z.sgn z * (q' * 2 ^ e).
+Definition issue_number (use_number : bool) (z : Z) : Z := if use_number then z else f64_int z.
+
+(* the claim IssueToken writes for the integer payload field (k, z), where the model determines it *)
+Definition issued_int_ok (use_number : bool) (c : claims) (kz : bytes * Z) : bool :=
+  let f := issue_number use_number (snd kz) in
+  if use_number || (Z.abs f <=? two53)
+  then match get (fst kz) c with Some (JNum _ fl) => fl =? f | _ => false end
+  else true.
+
 (* NewJWTSigner: secrets shorter than SecretKeyLength are refused (panic) *)
 Definition signer_constructible (key : bytes) : bool := (jwt_secret_min_len <=? N.of_nat (length key))%N.
 
@@ -256,9 +281,10 @@ Inductive obs := OPanic | OErr (e : ekind) | OOk (g : gp) (payload : N).
 
 (* how the harness produced the string (what it knows without looking at any result) *)
 Inductive origin :=
-| OIssued (key : bytes) (intact : bool) (app aud : bytes) (t0 d : Z) (payload : N)
+| OIssued (key : bytes) (intact : bool) (app aud : bytes) (t0 d : Z) (payload : N) (ints : list (bytes * Z))
     (* IssueToken of the real code, by a signer constructed with secret key, at clock t0 for app /
-       payload type aud / duration d; intact: the string was not changed *)
+       payload type aud / duration d; intact: the string was not changed; payload: digest of the
+       payload handed to IssueToken, ints: its top-level integer fields *)
 | OSigned (key : option bytes) (aud app : option bytes) (exp : option Z)
     (* header.claims written by the harness; key: the secret it signed them with by a real HMAC of
        the header's method (None: not signed that way); aud/app/exp: the claims as the harness wrote them (exp in whole seconds, rounded down) *)
@@ -303,6 +329,12 @@ Definition agrees_v (t : vtrace) : bool :=
   && match t_auth t with
      | None => true
      | Some c => (c =? auth_code (validate_app (t_key t) (t_aud t) (t_app t) (t_now t) (t_view t)))%N
+     end
+  (* the integer fields of the payload in the claims of an unchanged issued token *)
+  && match t_origin t, t_view t with
+     | OIssued _ true _ _ _ _ _ ints, VTok tk =>
+         match tk_claims tk with CObj c => forallb (issued_int_ok jwt_issue_uses_number c) ints | _ => false end
+     | _, _ => true
      end.
 
 (* satisfies: the property on the observed results and the origin of the string only.
@@ -314,7 +346,7 @@ Definition agrees_v (t : vtrace) : bool :=
    issued ones. *)
 Definition origin_allows (bound : bool) (t : vtrace) : bool :=
   match t_origin t with
-  | OIssued key intact app aud t0 d _ =>
+  | OIssued key intact app aud t0 d _ _ =>
       lex_eqb key (t_key t) && intact && lex_eqb aud (t_aud t) && (t_now t <? t0 + d) && (negb bound || lex_eqb app (t_app t))
   | OSigned key aud app exp =>
       option_eqb lex_eqb key (Some (t_key t)) && option_eqb lex_eqb aud (Some (t_aud t))
@@ -325,7 +357,7 @@ Definition origin_allows (bound : bool) (t : vtrace) : bool :=
 
 Definition payload_matches (t : vtrace) (g : gp) (p : N) : bool :=
   match t_origin t with
-  | OIssued _ _ app _ t0 d dig => lex_eqb (gp_app g) app && (gp_dur g =? d) && option_eqb Z.eqb (gp_iat g) (Some t0) && (p =? dig)%N
+  | OIssued _ _ app _ t0 d dig _ => lex_eqb (gp_app g) app && (gp_dur g =? d) && option_eqb Z.eqb (gp_iat g) (Some t0) && (p =? dig)%N
   | OSigned _ _ app _ => option_eqb lex_eqb app (Some (gp_app g))
   | ORaw => true
   end.
